@@ -651,6 +651,15 @@ static void gen_transport(vh_rng_t *rng)
   mon_enable_idx = mon_enable_fd = mon_enable_timer = 0;
   /* batch of queries queued at the same instant (before the connection completes) */
   n = vh_range(rng, 1, 20);
+  if (vh_chance(rng, 1, 6)) {
+    /* servers that close the stream after the answer: whether the FIN sits right behind the last answer bytes
+     * (run A) or arrives a little later (run B), the answer was sent in full.  One request only - with several
+     * on one connection the time of the close decides which of them the server still reads */
+    n = 1;
+    for (i = 0; i < sim_nsrv; i++) {
+      sim_srv[i].tcp_close_after_answer = 1;
+    }
+  }
   for (i = 0; i < n; i++) {
     int ti = gen_add_token(rng, vh_chance(rng, 4, 5) ? 0 : (int64_t)vh_below(rng, 50000));
     if (ti >= 0) {
@@ -750,6 +759,8 @@ static void run_transport(vh_rng_t *rng)
   }
   sim_cfg.tcp_write_mode  = (int)vh_below(&seg_rng, 3);
   sim_cfg.wblock_permille = vh_chance(&seg_rng, 1, 2) ? 250 : 0;
+  /* in run A a closing server's FIN sits right behind its last answer bytes; in run B it arrives a little later */
+  sim_fin_delay_us = (int64_t)vh_range(&seg_rng, 1, 5) * 1000;
   sim_cfg.use_pending_write_cb = vh_chance(&seg_rng, 1, 2);
   /* NOTE: how the application polls (one descriptor per call, blocking-socket mode) is deliberately NOT varied
    * between A and B: reporting readiness late lets timers fire first, which legitimately changes outcomes and
